@@ -15,7 +15,11 @@ def install(E, names):
     I['(*%smint/pubsub.PubSub).Publish' % M] = noop
     I['(*%smint.Mint).publishProofsStateChanges' % M] = noop
     for n in names:
-        if n == 'h2c':
+        if n == 'padd-inj':
+            # stated assumption: sums of points built from distinct operands are distinct (blinded messages Y + rG of
+            # distinct (secret, r) pairs do not collide) - the free term algebra; no associativity rewrite exists in euf mode
+            E.padd_inj = True
+        elif n == 'h2c':
             I[M + 'crypto.HashToCurve'] = E.h2c_summary
         elif n == 'nut10-none':
             # every secret is a plain (non NUT-10) secret
